@@ -19,12 +19,14 @@ TraceAdvance(t) ==
     /\ cbpc = "sleeping" => wake >= t
     /\ now' = t
     /\ blocked' = IF cbpc = "awaiting" THEN blocked + (t - now) ELSE blocked
-    /\ UNCHANGED <<arrived, buf, cbpc, wake, batch, batches, consBusy, arrAt, blkAt, rc, fired, awaitOf, doneUpTo, emitDone>>
+    /\ UNCHANGED <<arrived, buf, cbpc, wake, batch, batches, consBusy, arrAt, blkAt, rc, fired, awaitOf, doneUpTo, emitDone, failedBatch>>
 
 Event(ev) ==
     CASE ev.ev = "Arrive" -> Arrive(ev.e) /\ NewFired = ev.fired
       [] ev.ev = "Tick" -> Tick /\ buf = ev.es /\ NewFired = ev.fired /\ ev.md = ev.es     \* C10: members' metadata, member order
       [] ev.ev = "ConsumerDone" -> ConsumerDone
+      [] ev.ev = "ConsumerFail" -> ConsumerFail
+      [] ev.ev = "EmitRaised" -> EmitRaised(ev.e)
       [] ev.ev = "TickRelease" -> TickRelease /\ batch = ev.es /\ NewFired = ev.fired
       [] ev.ev = "EmitDone" -> EmitDone(ev.e)
       [] ev.ev = "Advance" -> TraceAdvance(ev.now)
